@@ -1,7 +1,7 @@
 //! C14 explorer: random token sets → "token soup" grammar → REAL generator + REAL parser; prints for
 //! every input string the leaf sequence of the real parse (or `E` when the tree has an error).
 //! usage: c14 <ops-file> [--spec <file>]
-//! spec line: `<tokenset> <codepoints-hex-list | ->`   tokenset = `w<idx|-> ; prec,isString,AST ; …` without spaces
+//! spec line: `<tokenset> <codepoints-hex-list | ->`   tokenset = `w<idx|->x<extras shape> ; prec,isString,AST ; …` without spaces
 //! AST: L61.62 literal | C0:61-63:30-30 class (1 = negated) | S(a,b) | A(a,b) | K(a) star | P(a) plus | O(a) opt | R2.3(a)
 use serde_json::{json, Value};
 use std::io::Write;
@@ -145,18 +145,24 @@ fn parse_re(s: &[u8], i: &mut usize) -> Re {
 struct Tok { prec: i32, is_string: bool, re: Re }
 
 #[derive(Clone, Debug)]
-struct TokSet { word: Option<usize>, toks: Vec<Tok> }
+struct TokSet { word: Option<usize>, extras: usize, toks: Vec<Tok> }
+
+/// extras shapes: 0 /\\s/ | 1 /[ \\n]/ | 2 / / | 3 / / and /\\n/ (two extras) | 4 /[ \\t]/
+const EXTRAS_SHAPES: usize = 5;
+const PUNCT: [u32; 6] = [0x2b, 0x2d, 0x28, 0x29, 0x3b, 0x2c];
 
 impl TokSet {
     fn ser(&self) -> String {
-        let mut s = format!("w{}", self.word.map(|w| w.to_string()).unwrap_or("-".into()));
+        let mut s = format!("w{}x{}", self.word.map(|w| w.to_string()).unwrap_or("-".into()), self.extras);
         for t in &self.toks { s.push_str(&format!(";{},{},{}", t.prec, t.is_string as u8, t.re.ser())); }
         s
     }
     fn parse(s: &str) -> TokSet {
         let mut parts = s.split(';');
         let w = parts.next().unwrap();
-        let word = w[1..].parse().ok();
+        let (wpart, xpart) = match w.find('x') { Some(i) => (&w[1..i], &w[i + 1..]), None => (&w[1..], "0") };
+        let word = wpart.parse().ok();
+        let extras = xpart.parse().unwrap_or(0);
         let toks = parts.map(|p| {
             let mut f = p.splitn(3, ',');
             let prec = f.next().unwrap().parse().unwrap();
@@ -165,7 +171,7 @@ impl TokSet {
             let re = parse_re(f.next().unwrap().as_bytes(), &mut i);
             Tok { prec, is_string, re }
         }).collect();
-        TokSet { word, toks }
+        TokSet { word, extras, toks }
     }
     fn grammar(&self, name: &str) -> String {
         let mut rules = serde_json::Map::new();
@@ -180,7 +186,15 @@ impl TokSet {
             };
             rules.insert(format!("t{i}"), json!({"type":"TOKEN","content":{"type":"PREC","value":t.prec,"content":inner}}));
         }
-        let mut g = json!({"name": name, "rules": Value::Object(rules), "extras": [{"type":"PATTERN","value":"\\s"}],
+        let pat = |p: &str| json!({"type":"PATTERN","value":p});
+        let extras: Vec<Value> = match self.extras {
+            1 => vec![pat("[ \\n]")],
+            2 => vec![pat(" ")],
+            3 => vec![pat(" "), pat("\\n")],
+            4 => vec![pat("[ \\t]")],
+            _ => vec![pat("\\s")],
+        };
+        let mut g = json!({"name": name, "rules": Value::Object(rules), "extras": extras,
             "conflicts": [], "precedences": [], "externals": [], "inline": [], "supertypes": []});
         if let Some(w) = self.word { g["word"] = json!(format!("t{w}")); }
         serde_json::to_string(&g).unwrap()
@@ -215,7 +229,38 @@ fn rand_re(rng: &mut Rng, depth: usize, focus: &[u32]) -> Re {
         3 => Re::Star(a),
         4 => Re::Plus(a),
         5 => Re::Opt(a),
-        _ => { let m = rng.below(3); Re::Rep(m, m + rng.below(3), a) }
+        _ => rand_rep(rng, a),
+    }
+}
+
+/// counted repetition `{m,n}`, n >= 1, lower bound 0 in half of the cases
+fn rand_rep(rng: &mut Rng, a: Box<Re>) -> Re {
+    let m = if rng.chance(1, 2) { 0 } else { rng.range(1, 2) };
+    Re::Rep(m, (m + rng.below(3)).max(1), a)
+}
+
+/// counted repetitions in every syntactic position: at the end / start / middle of alternatives
+/// (first or later), nested in groups, under `* + ?`
+fn rand_re_with_reps(rng: &mut Rng, focus: &[u32]) -> Re {
+    let small = |rng: &mut Rng| -> Re { if rng.chance(1, 2) { rand_cls(rng, focus) } else { Re::Lit(vec![pick_sym(rng, focus)]) } };
+    let rep = |rng: &mut Rng| -> Re { let a = Box::new(small(rng)); rand_rep(rng, a) };
+    let branch = |rng: &mut Rng| -> Re {
+        match rng.below(5) {
+            0 => Re::Seq(Box::new(small(rng)), Box::new(rep(rng))),                       // x y{m,n}
+            1 => Re::Seq(Box::new(rep(rng)), Box::new(small(rng))),                       // y{m,n} x
+            2 => Re::Seq(Box::new(small(rng)), Box::new(Re::Seq(Box::new(rep(rng)), Box::new(small(rng))))),
+            3 => Re::Seq(Box::new(small(rng)), Box::new(Re::Seq(Box::new(rep(rng)), Box::new(rep(rng))))),
+            _ => Re::Lit((0..rng.range(1, 2)).map(|_| pick_sym(rng, focus)).collect()),
+        }
+    };
+    let mut alt = branch(rng);
+    for _ in 0..rng.range(1, 2) { alt = if rng.chance(1, 2) { Re::Alt(Box::new(alt), Box::new(branch(rng))) } else { Re::Alt(Box::new(branch(rng)), Box::new(alt)) }; }
+    match rng.below(5) {
+        0 => Re::Seq(Box::new(small(rng)), Box::new(alt)),                                  // x(a|b{..})
+        1 => Re::Seq(Box::new(alt), Box::new(small(rng))),                                  // (a|b{..})x
+        2 => Re::Plus(Box::new(alt)),
+        3 => { let inner = Box::new(alt); rand_rep(rng, inner) }                            // (a|b{..}){m,n}
+        _ => alt,
     }
 }
 
@@ -235,7 +280,7 @@ fn rand_set(rng: &mut Rng) -> TokSet {
             lits.push(v.clone());
             toks.push(Tok { prec, is_string: true, re: Re::Lit(v) });
         } else {
-            let re = rand_re(rng, 2, &focus);
+            let re = match rng.below(4) { 0 => rand_re_with_reps(rng, &focus), 1 => rand_re(rng, 3, &focus), _ => rand_re(rng, 2, &focus) };
             if re.nullable() { continue; }
             if let Re::Lit(v) = &re { if lits.contains(v) { continue; } lits.push(v.clone()); }
             toks.push(Tok { prec, is_string: false, re });
@@ -256,6 +301,22 @@ fn rand_set(rng: &mut Rng) -> TokSet {
             toks.insert(at, t);
         }
     }
+    // family: many one-character tokens (operators / punctuation) valid in the same state
+    if rng.chance(1, 4) {
+        let mut pool: Vec<u32> = ALPHA.to_vec();
+        pool.extend(PUNCT);
+        for i in (1..pool.len()).rev() { let j = rng.below(i + 1); pool.swap(i, j); }
+        let k = rng.range(8, 12);
+        for c in pool.into_iter().take(k) {
+            let v = vec![c];
+            if lits.contains(&v) { continue; }
+            lits.push(v.clone());
+            let at = rng.below(toks.len() + 1);
+            let is_string = rng.chance(2, 3);
+            toks.insert(at, Tok { prec: if prec_mode == 0 { 0 } else { *rng.pick(&[0, 0, 0, 1]) }, is_string, re: Re::Lit(v) });
+        }
+    }
+    let extras = if rng.chance(1, 2) { 0 } else { rng.range(1, EXTRAS_SHAPES - 1) };
     let mut word = None;
     if with_word {
         let w = rng.below(toks.len() + 1);
@@ -264,7 +325,7 @@ fn rand_set(rng: &mut Rng) -> TokSet {
         toks.insert(w, Tok { prec: 0, is_string: false, re });
         word = Some(w);
     }
-    TokSet { word, toks }
+    TokSet { word, extras, toks }
 }
 
 /// leaves of an error-free tree as `tok:start:end` in CHARACTER offsets, or "E"
@@ -381,23 +442,26 @@ fn main() {
     let thorough = tier_is_thorough();
     let (n_sets, full_len, n_len_next, n_long) = if thorough { (160, 5, 6000, 600) } else { (60, 4, 1500, 250) };
     let mut syms: Vec<u32> = ALPHA.to_vec();
-    syms.push(0x20);
+    syms.extend([0x20, 0x20, 0x20, 0x0a, 0x09]);
+    syms.extend(PUNCT);
+    let mut enum_syms: Vec<u32> = ALPHA.to_vec();
+    enum_syms.push(0x20);
     let (mut built, mut rejected, mut total) = (0usize, 0usize, 0usize);
     for k in 0..n_sets {
         let mut srng = rng.fork();
         let ts = rand_set(&mut srng);
         let id = format!("{}-{k}", seed_from_env() % 100000);
         let mut gen = |f: &mut dyn FnMut(&[u32])| {
-            // every string up to `full_len` over the 8 alphabet symbols
+            // every string up to `full_len` over the 8 alphabet symbols and the blank
             let mut s: Vec<u32> = Vec::new();
-            fn rec(s: &mut Vec<u32>, left: usize, f: &mut dyn FnMut(&[u32])) {
+            fn rec(s: &mut Vec<u32>, left: usize, syms: &[u32], f: &mut dyn FnMut(&[u32])) {
                 f(s);
                 if left == 0 { return; }
-                for c in ALPHA { s.push(c); rec(s, left - 1, f); s.pop(); }
+                for c in syms { s.push(*c); rec(s, left - 1, syms, f); s.pop(); }
             }
-            rec(&mut s, full_len, f);
+            rec(&mut s, full_len, &enum_syms, f);
             // random strings of the next length, and longer ones with spaces
-            for _ in 0..n_len_next { let v: Vec<u32> = (0..full_len + 1).map(|_| *srng.pick(&ALPHA)).collect(); f(&v); }
+            for _ in 0..n_len_next { let v: Vec<u32> = (0..full_len + 1).map(|_| *srng.pick(&enum_syms)).collect(); f(&v); }
             for _ in 0..n_long { let len = srng.range(6, 40); let v: Vec<u32> = (0..len).map(|_| *srng.pick(&syms)).collect(); f(&v); }
         };
         match run_set(&mut out, &id, &ts, &mut gen) {
